@@ -6,6 +6,7 @@ From Coq Require Import Arith NArith List Lia Bool.
 From RTA.Model Require Import Base Arrival Wcet Demand Analyses Eval WellFormed.
 From RTA.Spec Require Import Sched Events TaskModel Policies.
 From RTA.Proofs Require Import FpSound EdfSound.
+From RTA.Proofs Require Import GeneralCosts.
 
 Definition edf_setting (tasks : list task) (dl : nat -> nat) (i : nat) jobs sched pp : Prop :=
   (i < length tasks)%nat /\
@@ -39,3 +40,13 @@ Qed.
 Definition C02_fully_nonpreemptive_sound := edf_fully_nonpreemptive_sound.
 Definition C02_floating_nonpreemptive_sound := edf_floating_nonpreemptive_sound.
 Theorem C02_all_four_variants_closed : True. Proof. exact I. Qed.
+
+(* ---- GENERAL JOB-COST MODELS (Proofs/GeneralCosts.v).  gtask = arrival bound * cost model (Scalar | Multiframe | cost curve |
+        extrapolating cost curve); respects_cost_models: every job costs at least 1 and, in some release-ordered enumeration of a
+        task's jobs, every block of m consecutive jobs costs at most cost_of_jobs(m) -- what JobCostModel::cost_of_jobs promises
+        (for trace-derived curves C14 proves it; for Multiframe it is an obligation on the frame vector, see
+        multiframe_first_frames_refuted).  The scalar theorems above are corollaries (scalar_respects_cost_models). ---- *)
+Definition C02_fully_preemptive_sound_general_costs := edf_fp_sound_gen.
+Definition C02_floating_nonpreemptive_sound_general_costs := edf_fnp_sound_gen.
+Definition C02_limited_preemptive_sound_general_interferers := edf_lp_sound_gen.
+Definition C02_general_costs_nonvacuous := gx_edf_completes.
